@@ -13,7 +13,8 @@ Inductive lkind :=
 | LFlag                                             (* FeatureFlagField *)
 | LAny.                                             (* AnyField *)
 
-Record leaf := { l_kind : lkind; l_required : bool; l_default : pyval; l_callable : bool; l_sensitive : bool }.
+Record leaf := { l_kind : lkind; l_required : bool; l_default : pyval; l_callable : bool; l_sensitive : bool;
+                 l_reject : option pyval }.   (* Field(validator=...): a custom validator from the vocabulary "this value is refused" *)
 
 (* int(str) for the strings the generators use: optional sign, ASCII digits *)
 Definition ci_is_digit (c : N) : bool := (48 <=? c) && (c <=? 57).
@@ -60,7 +61,7 @@ Definition validate_bool (x : pyval) : res pyval :=
   end.
 
 (* Field.validate: required / None, then the class's _validate *)
-Definition lvalidate (f : leaf) (x : pyval) : res pyval :=
+Definition lvalidate_kind (f : leaf) (x : pyval) : res pyval :=
   match x with
   | PNone => if l_required f then Err EValue else Ok PNone
   | _ =>
@@ -99,6 +100,17 @@ Definition lvalidate (f : leaf) (x : pyval) : res pyval :=
           | _ => Err EValue
           end
       end
+  end.
+
+(* ... then `if self.validator: value = self.validator(cfg, value)` (never reached for None) *)
+Definition lvalidate (f : leaf) (x : pyval) : res pyval :=
+  match lvalidate_kind f x with
+  | Ok v => match x, l_reject f with
+            | PNone, _ => Ok v
+            | _, Some r => if pyval_eqb v r then Err EValue else Ok v
+            | _, None => Ok v
+            end
+  | o => o
   end.
 
 Definition lto_python (f : leaf) (x : pyval) : res pyval := Ok x.
